@@ -631,3 +631,45 @@ def sp8(P, C):
                  "cholmod_l_drop(%s, ...): the tolerance is not machine epsilon; entries of a system with small weights fall below it" % f.render(a))
     if n == 0:
         raise core.AnalysisBroken("SP-8: no cholmod_l_drop call found in the fitter")
+
+
+def so2(P, C):
+    """SO-2: get_column does not depend on the order of the column's entries either."""
+    C.rule("SO-2", "the scan of a stored column for a requested row leaves early only when it has found that row: every `break` / `continue` / "
+           "early exit of the inner search loop of get_column is control-dependent on the equality test between the stored row index and the "
+           "requested one. A CHOLMOD sparse matrix need not have sorted columns (`sorted == 0`; glam assembles the system with cholmod_l_add(…, "
+           "sorted = 0), which appends penalty-only entries after the data term's), so an exit on `stored > requested` drops entries from the "
+           "column handed to cholmod_l_rowadd", floor=1)
+    f = P.one("get_column", file_endswith="cholesky_solve.c")
+    loops = [L for L in f.walk() if f.k(L) in ("ForStmt", "WhileStmt")]
+    inner = [L for L in loops if any(f.k(a) in ("ForStmt", "WhileStmt") for a in f.ancestors(L))]
+    if not inner:
+        raise core.AnalysisBroken("SO-2: the inner search loop of get_column was not found")
+    bad = []
+    n = 0
+    for L in inner:
+        for x in f.walk(f.nodes[L]["body"]):
+            if f.k(x) not in ("BreakStmt", "ReturnStmt", "GotoStmt"):
+                continue
+            if next((a for a in f.ancestors(x) if f.k(a) in ("ForStmt", "WhileStmt", "DoStmt", "SwitchStmt")), None) != L and f.k(x) == "BreakStmt":
+                continue
+            n += 1
+            ok = False
+            for a in f.ancestors(x):
+                if a == L:
+                    break
+                if f.k(a) == "IfStmt" and f.nodes[a]["then"] in [x] + list(f.ancestors(x)):
+                    c = f.nodes[f.strip(f.nodes[a]["cond"])]
+                    if c["k"] == "BinaryOperator" and c.get("op") == "==":
+                        ok = True
+            if not ok:
+                bad.append(x)
+        # the loop condition itself may not compare stored and requested indices by order
+        c = f.nodes[L].get("cond", -1)
+        if c is not None and c >= 0 and any(f.k(y) == "BinaryOperator" and f.nodes[y].get("op") in ("<", "<=", ">", ">=") and
+                                           "Fset" in f.render(y) and "Ai" in f.render(y) for y in f.walk(c)):
+            bad.append(L)
+    C.ob("SO-2", "get_column", "entry-order-insensitive", not bad, f.loc(bad[0]) if bad else f.loc(inner[0]),
+         "the search leaves the column early only after a match (%d early exit(s))" % n if not bad else
+         "the search of the stored column stops at %s on a condition other than having found the requested row: entries stored after a larger "
+         "row index are dropped when the column is not sorted" % f.loc(bad[0]))
